@@ -149,6 +149,21 @@ def run(ctx: Ctx):
             add(dict(ev="Targets", prefix=prefix, classif=1 if task == "classification2d" else 0, merge=1 if merge else 0, names=[b(x) for x in names],
                      resolved=[x.value if isinstance(x, conv.label_type) else "other-family:%s" % x.value for x in cfg.target_labels], each=[conv_label(conv, x) for x in names],
                      all_members=[]), ctx=("PerceptionEvaluationConfig", prefix, task, merge), targets=names)
+            # the frame-level critical filter resolves ITS names element by element too (one entry per name, duplicates kept: the per-label
+            # threshold lists are indexed by position)
+            try:
+                from perception_eval.evaluation.result.perception_frame_config import CriticalObjectFilterConfig as _CF
+
+                names2 = ["truck", "car", "pedestrian", "BUS"] if prefix == "autoware" else ["green", "red", "GREEN"]
+                kw_ = {} if is2d else dict(max_x_position_list=[80.0, 50.0, 10.0, 30.0][: len(names2)], max_y_position_list=[80.0, 50.0, 10.0, 30.0][: len(names2)])
+                cf_ = _CF(cfg, names2, **kw_)
+                fp_ = cf_.filtering_params["target_labels"]
+                add(dict(ev="Targets", prefix=prefix, classif=1 if task == "classification2d" else 0, merge=1 if merge else 0, names=[b(x) for x in names2],
+                         resolved=[x.value if isinstance(x, conv.label_type) else "other-family:%s" % x.value for x in fp_], each=[conv_label(conv, x) for x in names2],
+                         all_members=[]), ctx=("CriticalObjectFilterConfig.filtering_params", prefix, task, merge), targets=names2)
+            except Exception as ex:
+                add(dict(ev="Targets", prefix=prefix, classif=1 if task == "classification2d" else 0, merge=1 if merge else 0, names=[b("x")], resolved=["raised"], each=["raised"],
+                         all_members=[]), ctx=("CriticalObjectFilterConfig", prefix, task, merge, repr(ex)[:160]), targets=[])
             # ... and the configuration's own converter is the converter of its family / task / merge option
             fresh = LabelConverter(_ET.from_value(task), merge, prefix)
             reg_ = [i.name for i in fresh.label_infos]
